@@ -82,6 +82,10 @@ macro_rules! impl_real {
                 } else {
                     let mut buf = [b'0'; <$typ>::FORMATTED_SIZE_DECIMAL];
                     let slc = lexical_core::write::<$typ>(*self, &mut buf);
+                    // Negative zero is written without its sign
+                    if *self == 0.0 && self.is_sign_negative() {
+                        formatter.push_byte(b'-')?;
+                    }
                     formatter.push_str(slc)
                 }
             }
